@@ -376,9 +376,35 @@ def run(ctx, repo, tier):
                         handled.add(c.pattern.value.value)
         ctx.instance("DISPATCH", len(producible[role]))
         for a in sorted(producible[role]):
-            ctx.check(a in handled, "DISPATCH", f"C17.dispatch.{role}.{a}", f"{fac}.create has a branch for algorithm {a!r} that "
-                      f"the parser can produce for role {role}", create.where, f"alg_name == {a!r}",
-                      witness=f"handled: {sorted(handled)}")
+            if a in handled:
+                ctx.ok("DISPATCH", f"C17.dispatch.{role}.{a}", f"{fac}.create has a branch for algorithm {a!r} that the parser can produce "
+                       f"for role {role}", create.where, f"alg_name == {a!r}")
+                continue
+            # not found as a literal comparison: evaluate the factory abstractly for this name (table-driven / mapped dispatch)
+            verdict = None
+            try:
+                from ..fgmodel import FGHooks
+                from ..values import ClassV, ObjV as _ObjV
+                it_ = Interp(repo, FGHooks(repo, 5, 5, 2), max_depth=12)
+                n_arg = Num(8) if a == "fulldiv" else (Num(1) if a.startswith("zero") else Num(5))
+                res_ = it_.call_value(it_.getattr(ClassV(fci), "create"), [Const(a), n_arg], {}, None, None)
+                kinds_ = [k for k, g, w in it_.raises]
+                if isinstance(res_, _ObjV) and res_.cls is not None:
+                    verdict = True
+                elif "ValueError" in kinds_ and not isinstance(res_, _ObjV):
+                    verdict = False
+            except Exception:
+                verdict = None
+            if verdict is True:
+                ctx.ok("DISPATCH", f"C17.dispatch.{role}.{a}", f"{fac}.create builds a grid object for algorithm {a!r} (abstract evaluation "
+                       "of the factory)", create.where)
+            elif verdict is False:
+                ctx.violate("DISPATCH", f"C17.dispatch.{role}.{a}", f"{fac}.create has no branch for algorithm {a!r} that the parser can "
+                            f"produce for role {role}: the grid name is accepted and then construction fails", create.where,
+                            f"alg_name == {a!r}", witness=f"literal branches: {sorted(handled)}; abstract evaluation raises ValueError")
+            else:
+                ctx.inconclusive("DISPATCH", f"C17.dispatch.{role}.{a}", f"dispatch of {fac}.create for {a!r} not derived", create.where,
+                                 witness=f"literal branches: {sorted(handled)}")
         # FullGrid / PositionGrid construct the parsers with the right roles and factories
     fg = repo.module("molgri.space.fullgrid")
     role_calls = []
